@@ -41,7 +41,7 @@ func (c *mapCtx) AddRequestHeader(n, v string) frugal.FContext {
 	return c
 }
 func (c *mapCtx) RequestHeader(n string) (string, bool) { v, ok := c.req[n]; return v, ok }
-func (c *mapCtx) RequestHeaders() map[string]string   { return copyMap(c.req) }
+func (c *mapCtx) RequestHeaders() map[string]string     { return copyMap(c.req) }
 func (c *mapCtx) AddResponseHeader(n, v string) frugal.FContext {
 	if c.added == nil {
 		c.added = map[string]string{}
@@ -50,7 +50,7 @@ func (c *mapCtx) AddResponseHeader(n, v string) frugal.FContext {
 	return c
 }
 func (c *mapCtx) ResponseHeader(n string) (string, bool)   { v, ok := c.resp[n]; return v, ok }
-func (c *mapCtx) ResponseHeaders() map[string]string      { return copyMap(c.resp) }
+func (c *mapCtx) ResponseHeaders() map[string]string       { return copyMap(c.resp) }
 func (c *mapCtx) SetTimeout(time.Duration) frugal.FContext { return c }
 func (c *mapCtx) Timeout() time.Duration                   { return 5 * time.Second }
 
@@ -512,4 +512,3 @@ func runC04(tier string, args []string) int {
 	}
 	return run.Finish()
 }
-
